@@ -305,7 +305,7 @@ func (o *TranscriptOracle) Check(e *core.Engine) []core.Violation {
 			if d := core.CompareAttempts(ra, a); d != "" {
 				sig := "divergence"
 				vs = append(vs, core.Violation{Property: o.Prop, Oracle: o.Name, Sig: sig,
-					Msg: fmt.Sprintf("replica %d (%s, restarts=%d, handshake=%v) vs reference: %s", i, r.Spec.Keys.Name, r.Restarts, a.Handshake, d)})
+					Msg: fmt.Sprintf("replica %d (%s, restarts=%d, handshake=%v) vs reference: %s%s", i, r.Spec.Keys.Name, r.Restarts, a.Handshake, d, diffNote(e, i, a))})
 				o.checked[i] = len(r.Tr.Attempts)
 				return vs
 			}
@@ -338,3 +338,16 @@ func (NopOracle) AfterStep(e *core.Engine, idx int, st *core.Step, stepErr error
 }
 func (NopOracle) Finish(e *core.Engine) []core.Violation { return nil }
 func (NopOracle) NonTrivial(e *core.Engine) bool       { return true }
+
+// diffNote lists the differing committed keys when the divergence is in the app hash and both
+// replicas are at the same height (diagnosis only).
+func diffNote(e *core.Engine, i int, a *core.BlockAttempt) string {
+	ref, r := e.C.Ref(), e.C.Replicas[i]
+	if !a.Committed || !r.Up || r.App == nil || ref.App == nil {
+		return ""
+	}
+	if ref.App.VerifChainState().Version != r.App.VerifChainState().Version {
+		return ""
+	}
+	return DumpDiffNote(e, i)
+}
